@@ -18,3 +18,4 @@ def load(name):
 REGISTRY["ark_encoding"] = ("arkcurve", "encoding")
 REGISTRY["ark_ops"] = ("arkcurve", "ops")
 REGISTRY["ark_element"] = ("arkcurve", "element")
+REGISTRY["ark_elligator"] = ("arkcurve", "elligator")
